@@ -223,7 +223,10 @@ func generateWrappers(
 				if !fm.parallel {
 					callCount++
 					if callCount > 1 {
-						v = vCopy.Copy()
+						// restore the caller's collection to its state at entry
+						// (rebinding v would send our own return values, and
+						// those of this inner() call, to a private copy)
+						copy(v, vCopy)
 					}
 					return common(v)
 				}
